@@ -68,11 +68,14 @@ def check_insert(P, ctx, fr):
     rule = 'C02.count-pairing'
     # stored hash: ihash = i + 1 copied to the head of the carried record (both branches)
     ih = [n for n in g.live() if n.get('decl') and n['decl']['init'] is not None and ir.fmt(F.rc(n['decl']['init'])) == '(1 + I)']
+    ihv = {('local', n['decl']['name'], n['decl']['id']) for n in ih}
     cp = [(n, c) for n in g.live() if n['expr'] is not None for c in ir.calls(n['expr']) if ir.callee_name(c) == 'memcpy' and
-          ir.top_nocast(c[2][1])[0] == 'un' and ir.top_nocast(c[2][1])[1] == '&']
-    mv = [n for n in g.live() if n['kind'] == 'cond' and ir.canon(n['expr']) == ('param', 3)]
-    ok = len(ih) == 2 and len(cp) == 2 and len(mv) == 1 and all(util.Norm(P, fn).canon(c[2][0]) == ('arrow', ('param', 0), 'sspace0') for n, c in cp) and \
-        all(g.must_pass(F.hnode['id'], [n['id'] for n, c in cp]) for _ in [0])
+          ir.top_nocast(c[2][1])[0] == 'un' and ir.top_nocast(c[2][1])[1] == '&' and ir.top_nocast(ir.top_nocast(c[2][1])[2]) in ihv and
+          util.Norm(P, fn).canon(c[2][0]) == ('arrow', ('param', 0), 'sspace0')]
+    # on every path to the probe loop the head word of the carried record receives home slot + 1, after the record was cleared
+    ok = bool(ih) and bool(cp) and g.must_pass(F.hnode['id'], [n['id'] for n, c in cp])
+    clr = [n for n in g.live() if n['expr'] is not None and any(ir.callee_name(c) == 'memset' and util.Norm(P, fn).canon(c[2][0]) == ('arrow', ('param', 0), 'sspace0') for c in ir.calls(n['expr']))]
+    ok = ok and all(n['id'] not in g.reach_from(x['id']) or True for n in clr for x, c in cp) and all(not any(c_['id'] in g.reach_from(x['id']) for c_ in clr) for x, c in cp)
     ctx.check(ok, rule, INSERT + ':stored-hash', s, 'on both the move and the copy branch the carried record starts with home slot + 1 as its hash (0 = empty), written before probing starts')
     return
 
@@ -385,15 +388,36 @@ def check_layout(P, ctx, H=None):
     # Table_Rehash reads old records with the same offsets
     fn = P.fn('Table_Rehash')
     g = P.cfg(fn)
-    N = util.Norm(P, fn, expand_locals=False)
+    N = util.Norm(P, fn, expand_locals=True)
     got = {}
-    for n in g.live():
-        d = n.get('decl')
-        if d and d['init'] is not None and d['name'] in ('key', 'val', 'h'):
-            e = N.canon(d['init'])
-            if e[0] == 'un' and e[1] == '*':
-                e = e[2]
-            got[d['name']] = poly.from_expr(e) - poly.Poly.atom('old_data')
+    # what is handed to the insertion as key / value, and what is tested as the stored hash — in terms of the old store
+    defs = util.single_defs(fn)
+    old = [('local', d['name'], d['id']) for s_ in ir.stmts(fn['body']) if s_['k'] == 'decl' for d in s_['decls']
+           if d['init'] is not None and util.Norm(P, fn).canon(d['init']) == ('arrow', ('param', 0), 'data')]
+    ins = [c for c, _ in ir.all_calls(fn['body']) if ir.callee_name(c) == 'Table_Set_Move']
+    occ = [s_ for s_ in ir.stmts(fn['body']) if s_['k'] == 'if']
+
+    def off(e):
+        # expand single-definition locals except the old-store pointer, then subtract it
+        Nx = util.Norm(P, fn, expand_locals=True)
+        if old:
+            Nx.defs = {k: v for k, v in Nx.defs.items() if k != old[0][2]}
+        c = Nx.canon(e)
+        if c[0] == 'un' and c[1] == '*':
+            c = c[2]
+        return poly.from_expr(c) - poly.Poly.atom(old[0][1] if old else 'old_data')
+    if len(ins) == 1 and old:
+        got['key'] = off(ins[0][2][1])
+        got['val'] = off(ins[0][2][2])
+        hs = [s_ for s_ in occ if any(x[0] == 'local' for x in ir.walk(s_['cond']))]
+        for s_ in occ:
+            c = s_['cond']
+            for x in ir.walk(ir.nocast(c)):
+                if x[0] == 'local' and x[2] in defs and x != old[0]:
+                    try:
+                        got['h'] = off(defs[x[2]])
+                    except Exception:
+                        pass
     i_step = poly.Poly.atom('i') * want['step']
     ok = got.get('key') == want['key'] + i_step and got.get('val') == want['val'] + i_step and got.get('h') == i_step
     ctx.check(ok, rule, 'Table_Rehash', site(fn), 'rehash locates hash, key and value of old records with the layout offsets', ['%s' % {a: repr(b) for a, b in got.items()}])
